@@ -1533,7 +1533,13 @@ class BaseSpaceImpl(*_base_space_impl_base):
             if child in self.named_spaces:
                 return self.named_spaces[child]
             elif child in self.namespace:
-                return self._namespace[child]
+                impl = self._namespace[child]
+                if (isinstance(impl, ReferenceImpl)
+                        and impl.parent is self.model):
+                    # A model-level reference is visible in the namespace,
+                    # but it is not an object of this space
+                    return None
+                return impl
             elif child in self.named_itemspaces:
                 return self._named_itemspaces[child]
             else:
